@@ -438,7 +438,7 @@ void register_c10(std::vector<Profile>& v)
   p.stub_components = {"recording sinks that throw on plan-chosen statements", "fwrite (interposed: fails with ENOSPC on plan-chosen calls)",
                        "clock (virtual)", "scheduling (simulator)"};
   p.assumptions = {"sequentially consistent atomics", "a statement whose formatting failed is recognised by quill's 'Could not format log statement' text"};
-  p.quick_runs = 3000;
+  p.quick_runs = 20000;
   p.thorough_runs = 400000;
   v.push_back(p);
 }
